@@ -512,7 +512,7 @@ class CFG:
         hnodes: list[tuple[ast.ExceptHandler, Node]] = []
         for h in s.handlers:
             types = _handler_types(self.prog, self._m, h)
-            hn = self._new("handler", norm(h.type) if h.type else "bare", h)
+            hn = self._new("handler", (", ".join(types) if types and isinstance(h.type, ast.Call) else norm(h.type)) if h.type else "bare", h)
             level.append((types, hn))
             hnodes.append((h, hn))
         if fin_x is not None:
@@ -630,7 +630,15 @@ def _pure_iter(e: ast.expr) -> bool:
 def _handler_types(prog: Program, m: Module, h: ast.ExceptHandler) -> list[str] | None:
     if h.type is None:
         return None
-    ts = h.type.elts if isinstance(h.type, ast.Tuple) else [h.type]
+    ht = h.type
+    # `except tuple(TABLE)` / `except TABLE` with a module-level table of exception classes (a dict's keys, a tuple / list)
+    inner = ht.args[0] if isinstance(ht, ast.Call) and isinstance(ht.func, ast.Name) and ht.func.id in ("tuple", "list") and len(ht.args) == 1 else ht
+    if isinstance(inner, ast.Name) and inner.id in m.consts:
+        tbl = m.consts[inner.id]
+        elts = tbl.keys if isinstance(tbl, ast.Dict) else tbl.elts if isinstance(tbl, (ast.Tuple, ast.List, ast.Set)) else None
+        if elts and all(e is not None for e in elts):
+            ht = ast.Tuple(elts=list(elts), ctx=ast.Load())
+    ts = ht.elts if isinstance(ht, ast.Tuple) else [ht]
     out = []
     for t in ts:
         d = prog.dotted(m, t)
